@@ -138,7 +138,13 @@ func appendSnapshotPackages(b []byte, s *slip.Scope) []byte {
 	}
 	if 0 < len(defs) {
 		b = append(b, '\n')
+		// A package has to be defined after the packages it uses. It uses
+		// strictly more packages, directly or indirectly, than any of them.
 		sort.Slice(defs, func(i, j int) bool {
+			ni, nj := usedPackageCount(defs[i]), usedPackageCount(defs[j])
+			if ni != nj {
+				return ni < nj
+			}
 			return defs[i].Name < defs[j].Name
 		})
 		for _, p := range defs {
@@ -171,6 +177,23 @@ func appendSnapshotPackages(b []byte, s *slip.Scope) []byte {
 		}
 	}
 	return b
+}
+
+// usedPackageCount returns the number of packages used by a package directly
+// or through the packages it uses.
+func usedPackageCount(p *slip.Package) int {
+	seen := map[*slip.Package]bool{}
+	var walk func(p *slip.Package)
+	walk = func(p *slip.Package) {
+		for _, u := range p.Uses {
+			if !seen[u] {
+				seen[u] = true
+				walk(u)
+			}
+		}
+	}
+	walk(p)
+	return len(seen)
 }
 
 func appendSnapshotConstants(b []byte, s *slip.Scope) []byte {
